@@ -87,6 +87,7 @@ structure LSt where
   finishedWithEnd : Bool := false
   stopClosed : Bool := false
   rebalances : Nat := 0
+  endedVbs : List Nat := []        -- vBuckets whose stream has finally ended in this session (the server has no stream for them any more)
   nextSeq : AMap Nat := []         -- server side: next seqno per vBucket
   dead : Bool := false             -- a fail-stop happened (process gone)
 deriving Repr, Inhabited
@@ -116,6 +117,7 @@ def doOpen (s : LSt) : LSt × List LObs :=
   let pos := vs.map fun vb => (vb, (s.store.get? vb).getD 0)
   ({ s with everOpened := true, isOpen := true, lo := s.memLo, hi := s.memHi, pos := pos, dirty := [], anyDirty := false,
             obsNil := false, closedObs := false, active := vs.length, finishedWithClose := false, finishedWithEnd := false,
+            endedVbs := [],
             nextSeq := pos.map fun (vb, q) => (vb, q + 1) },
    [.cb .BSS] ++ pos.map (fun (vb, q) => .openreq vb q) ++ [.cb .ASS])
 
@@ -126,8 +128,9 @@ def waitFires (s : LSt) : LSt × List LObs :=
 /-- `stream.Close(cancel)`; `none` = nil dereference of `s.observers` (the stream is already closed) -/
 def doClose (s : LSt) (cancel : Bool) : Option (LSt × List LObs) :=
   if s.obsNil then none else
-  -- every `CloseStream` is answered by `End(ErrDCPStreamClosed)` → `listenEnd` → final branch
-  let n : Int := s.pos.length
+  -- every `CloseStream` of a stream the server still has is answered by `End(ErrDCPStreamClosed)` → `listenEnd` →
+  -- final branch; for a stream that already ended the server answers "no such stream" and sends no End
+  let n : Int := (s.pos.filter fun (vb, _) => !s.endedVbs.contains vb).length
   let act := s.active - n
   let s1 := { s with closeWithCancel := cancel, closedObs := true, active := act }
   -- the last `listenEnd` produced the end-event token iff the count hit zero
@@ -259,11 +262,11 @@ def listenEnd (s : LSt) (vb : Nat) (c : EndCause) : LSt × List LObs :=
       | none => ({ s with dead := true }, [.failstop "reopen-gave-up"])
     else
       let act := s.active - 1
-      let s1 := { s with active := act }
+      let s1 := { s with active := act, endedVbs := if s.endedVbs.contains vb then s.endedVbs else s.endedVbs ++ [vb] }
       if act = 0 && !s1.finishedWithClose then waitFires { s1 with finishedWithEnd := true } else (s1, [])
   | _ =>
     let act := s.active - 1
-    let s1 := { s with active := act }
+    let s1 := { s with active := act, endedVbs := if s.endedVbs.contains vb then s.endedVbs else s.endedVbs ++ [vb] }
     if act = 0 && !s1.finishedWithClose then waitFires { s1 with finishedWithEnd := true } else (s1, [])
 
 /-- one marker + one user mutation pushed on `vb`, acknowledged at once by the consumer -/
